@@ -18,6 +18,9 @@
 (*       Lenient: a resource whose every announcement was lost (the last creating reply of the call was    *)
 (*       lost and no delivered reply ever named it) is outside the clause - the client cannot know it;     *)
 (*       the cloud replays the answer of a repeated ClientToken, so one delivered retry DOES recover it.   *)
+(*       (A call whose every attempt loses the reply leaves the resource behind; the NEXT call with the    *)
+(*       same arguments re-uses the token and recovers it - for CreateNetworkInterface only if it picks    *)
+(*       the same vSwitch, which the random selection policy does not guarantee.  Recorded, not judged.)   *)
 (*  C01  what a successful call reports is assigned to that interface of this instance at return time.     *)
 (*  C06  the OpenAPI requests of a call ask exactly for what the caller asked: same interface, same count, *)
 (*       same addresses, and no mutation the call does not imply.                                          *)
@@ -304,7 +307,8 @@ Quiescent(st) ==
     /\ G("C07", { s.e : s \in tracked } = { e \in Enis : cloud[e].inst = 1 /\ cloud[e].type # "Primary" })
     /\ G("C07", \A s \in tracked : C(s.e).v4 \subseteq s.v4 /\ C(s.e).v6 \subseteq s.v6)
     /\ G("C07", \A s \in tracked : s.valid4 \subseteq C(s.e).v4 /\ s.valid6 \subseteq C(s.e).v6)
-    /\ G("C07", \A e \in Enis : cloud[e].st # "none" => cloud[e].inst # 0)                               \* nothing left behind unattached
+    /\ G("C07", \A e \in Enis : cloud[e].st # "none" /\ e \notin acct.exE => cloud[e].inst # 0)          \* nothing left behind unattached (lenient: except
+                                                                                                          \* what was never announced to the client, see C07 above)
     /\ UNCHANGED vars
 
 -----------------------------------------------------------------------------
